@@ -13,6 +13,7 @@ Tie:   (S) scripted answers at both seams: objective_value, values (keys and ord
        of the objective's denotation at the reported values, both orientations."""
 from __future__ import annotations
 
+import itertools
 import random
 import warnings
 import numpy as np
@@ -145,6 +146,8 @@ def run(rep: vk.Report):
         dead = None
         if kind == "lp":
             cf = g.coeffs(x.size)
+            if r.random() < 0.3:
+                cf = np.array([r.choice([1, 2, 3, 5]) + j for j in range(x.size)], dtype=r.choice([np.uint8, np.uint16, np.int32]))
             obj = r.choice([lambda: cf @ x + const, lambda: const - cf @ x, lambda: (const + 1) - x.sum(), lambda: x @ cf - const,
                             lambda: const + 2 * x.sum(), lambda: cf @ x[::-1] + const])()
             if r.random() < 0.4:
@@ -220,6 +223,66 @@ def run(rep: vk.Report):
                                        "witness": {"objective": repr(P.objective)[:300], "maximize": cur_mx, "method": meth, "history": list(steps),
                                                    "reported": sol.objective_value, "probe": pt, "probe_value": fv}}, concrete=True)
                         break
+    # ---- LP sweep over the ways a user may hold the cost vector: dtype x orientation x spelling, bare `c @ x` included
+    from optyx import VectorVariable as _VV
+    sweep = 0
+    for dt, mx_, form in itertools.product([np.float64, np.int64, np.int32, np.uint8, np.uint16], [False, True], range(4)):
+        xv = _VV("q", 4, lb=0.0, ub=4.0)
+        cvec = np.array([3, 1, 2, 5], dtype=dt)
+        obj = [lambda: cvec @ xv, lambda: cvec @ xv + 2.5, lambda: 10 - cvec @ xv, lambda: xv @ cvec][form]()
+        P = Problem()
+        (P.maximize if mx_ else P.minimize)(obj)
+        P.subject_to(xv.sum() <= 6)
+        for meth in ("auto", "highs-ds"):
+            with warnings.catch_warnings():
+                warnings.simplefilter("ignore")
+                try:
+                    sol = P.solve(method=meth)
+                except Exception as ex:
+                    rep.violation({"kind": "exception", "obligation": "an LP with integer-typed cost data solves", "witness": {"dtype": np.dtype(dt).name,
+                                   "maximize": mx_, "objective": repr(obj)[:120], "error": repr(ex)[:200]}}, concrete=True)
+                    continue
+            sweep += 1
+            if sol.status != SolverStatus.OPTIMAL:
+                continue
+            xs = np.array([sol.values[f"q[{k}]"] for k in range(4)])
+            cfl = np.array([3.0, 1.0, 2.0, 5.0])
+            want = [cfl @ xs, cfl @ xs + 2.5, 10 - cfl @ xs, cfl @ xs][form]
+            # the optimum itself, from the data: costs 3,1,2,5 on the box [0,4]^4 with sum <= 6
+            best = {(False, 0): 0.0, (True, 0): 5 * 4 + 3 * 2, (False, 1): 2.5, (True, 1): 28.5, (False, 2): 10 - 26.0, (True, 2): 10.0,
+                    (False, 3): 0.0, (True, 3): 26.0}[(mx_, form)]
+            if abs(sol.objective_value - want) > 1e-7 * (1 + abs(want)) or abs(sol.objective_value - best) > 1e-6 * (1 + abs(best)):
+                rep.violation({"kind": "values", "obligation": "objective_value = objective at the returned values = the optimum of the model as written",
+                               "witness": {"cost_dtype": np.dtype(dt).name, "maximize": mx_, "objective": repr(obj)[:120], "method": meth,
+                                           "reported": sol.objective_value, "objective_at_returned_values": float(want), "true_optimum": best,
+                                           "values": sol.values}}, concrete=True)
+    # ---- a Parameter inside a loop-accumulated objective (shallow, and beyond the depth where the explicit-stack compiler takes
+    # over), re-solved after set(): the reported value must be the objective, under the CURRENT parameter value, at the returned point
+    from optyx import Parameter as _P
+    param_resolves = 0
+    for nterms, meth in itertools.product([40, 399, 450], ["auto", "SLSQP"]):
+        xv = _VV("r", 3, lb=-5.0, ub=5.0)
+        lam = _P("lam", 0.5)
+        data = [(0.1 * k - 1.0, (k % 5) * 0.25) for k in range(nterms)]
+        obj = None
+        for k, (a_, b_) in enumerate(data):
+            t = (xv[k % 3] * a_ - b_) ** 2 + lam * xv[k % 3] * 0.01
+            obj = t if obj is None else obj + t
+        P = Problem().minimize(obj)
+        for val in (None, 50.0, -3.0):
+            if val is not None:
+                lam.set(val)
+            with warnings.catch_warnings():
+                warnings.simplefilter("ignore")
+                sol = P.solve(method=meth)
+            param_resolves += 1
+            xs = [sol.values[f"r[{k}]"] for k in range(3)]
+            want = sum((xs[k % 3] * a_ - b_) ** 2 + float(lam.value) * xs[k % 3] * 0.01 for k, (a_, b_) in enumerate(data))
+            if sol.objective_value is None or abs(sol.objective_value - want) > 1e-7 * (1 + abs(want)):
+                rep.violation({"kind": "values", "obligation": "objective_value = objective (current parameter value) at the returned values",
+                               "witness": {"terms": nterms, "method": meth, "lam": float(lam.value), "history": "solve; lam.set(50); solve; lam.set(-3); solve",
+                                           "reported": sol.objective_value, "objective_at_returned_values": want, "values": sol.values}}, concrete=True)
+                break
     nfails, nund = common.run_classify("SemI HarnessI", "", common.NUM_TYPE, nums, common.NUM_CHECKER) if nums else ([], [])
     for i in nfails:
         rep.violation({"kind": "numeric", "obligation": "objective_value = objective evaluated at the reported values",
@@ -233,6 +296,8 @@ def run(rep: vk.Report):
     cov["samples"] = [c[:500] for c in cases.terms[:2]] + [n[:300] for n in nums[:2]]
     cov["stub_cases"] = len(cases.terms)
     cov["handles_checked"] = sum(m["handles"] for m in cases.meta)
+    cov["lp_cost_dtype_sweep"] = sweep
+    cov["parameter_resolves"] = param_resolves
     cov["real_solves"] = len(nums)
     cov["history_steps"] = hist_count
     cov["real_undecided"] = len(nund)
